@@ -297,10 +297,8 @@ pub fn alphas_thorough() -> Vec<Alpha> {
 /// value length that lands in slot class i (0..15) / key length whose record lands in key class i
 /// the largest value length whose record still fits slot class i (one byte more lands in the next class)
 fn class_value_len(i: usize) -> u32 {
-    let c = crate::decoder::CLASSES[i] as u64;
-    if i >= 15 {
-        return 1000;
-    }
+    // i = 15: the 1024-byte slot, i = 16: the next size of the large class (1152 bytes)
+    let c = if i >= 16 { 1152 } else { crate::decoder::CLASSES[i] as u64 };
     let mut len = c;
     while crate::decoder::value_slot_for(len) > c {
         len -= 1;
@@ -321,7 +319,7 @@ fn class_key_len(i: usize) -> usize {
 /// of both files is used (a slot of class i is freed when the entry grows to class i+1, and reused)
 pub fn class_ladder(ctx: &mut Ctx, prop: &str, oracles: u32, clauses: u32, reopen: bool, step: usize) {
     let seed = ctx.seed;
-    for i in (0..15).step_by(step) {
+    for i in (0..16).step_by(step) {
         // the largest length that fits class i, one byte more (first length of class i+1), and the largest of class i+1
         let a = Alpha { label: "class ladder (values)", colliding: vec![5, 6], other: vec![], vals: vec![class_value_len(i), class_value_len(i) + 1, class_value_len(i + 1)] };
         let mut cfg = make_cfg(prop, KtId::Bytes, 8, &a, seed);
@@ -331,7 +329,7 @@ pub fn class_ladder(ctx: &mut Ctx, prop: &str, oracles: u32, clauses: u32, reope
             cfg.params = reopen_params(cfg.params[0]);
         }
         let starts: Vec<Start> = empty_start(ctx, &cfg).into_iter().collect();
-        run_closure(ctx, &format!("class ladder: 2 colliding keys x values of {}, {} and {} bytes (value slots {} and {})", a.vals[0], a.vals[1], a.vals[2], crate::decoder::CLASSES[i], crate::decoder::CLASSES[i + 1]), &cfg, starts, 100_000, 20.0);
+        run_closure(ctx, &format!("class ladder: 2 colliding keys x values of {}, {} and {} bytes (value slots {} and {})", a.vals[0], a.vals[1], a.vals[2], crate::decoder::CLASSES[i], if i + 1 < 16 { crate::decoder::CLASSES[i + 1] } else { 1152 }), &cfg, starts, 100_000, 20.0);
         if ctx.run.too_many() || !ctx.run.violations.is_empty() {
             return;
         }
@@ -939,6 +937,10 @@ pub fn c17(tier: &str, seed: u64) -> i32 {
     }
     if ctx.run.violations.is_empty() {
         many_sizes_closure(&mut ctx, "C17", o, clauses, 20_000, 10.0);
+    }
+    if ctx.run.violations.is_empty() {
+        let t = ctx.thorough();
+        crate::engine_c::stats_at_sync_pass(&mut ctx, if t { 6 } else { 5 }, if t { 200.0 } else { 15.0 });
     }
     // tables below 8 buckets (the bitmap is shorter than a byte per 8 buckets there)
     for n in [1u64, 2, 4] {
